@@ -1,4 +1,4 @@
-CONSTANTS Wide = TRUE
+CONSTANTS Wide = FALSE
           Nest = FALSE
 INIT InitIn
 NEXT EvalIn
